@@ -50,6 +50,20 @@ for f in sorted(glob.glob('seeded/*/meta.json')):
     out = '; '.join(x.strip() for x in c.get('check_output', [])[1:3])[:160]
     seedrows.append('| %s | %s | %s | %s | **%s** %s |' % (sid, d.get('property'), d.get('summary', '')[:260].replace('|', '/').replace('\n', ' '),
                     d.get('needs', '')[:260].replace('|', '/').replace('\n', ' '), c.get('check_result', '?'), out.replace('|', '/')))
+# per-round summary of the seeded changes (the number after the dash is the order of writing per property;
+# -1..-3: sessions 1-2, -4 and later: session 3, each round written against the checks as strengthened so far)
+rounds = {}
+for f in sorted(glob.glob('seeded/*/meta.json')):
+    d = json.load(open(f)); sid = os.path.basename(os.path.dirname(f))
+    n = int(sid.split('-')[1]); r = d.get('confirmed_by_integrator', {}).get('check_result', '?')
+    k = 'caught at first run' if r == 'caught' else ('tie/obligation broke, no failing input at first run' if 'no-failing-input-found' in r else ('missed at first run' if 'missed' in r else r))
+    rounds.setdefault(n, {}).setdefault(k, []).append(sid)
+seedrows += ['', 'Summary by order of writing (every change listed is reported as a VIOLATION by the committed checks; the column says what',
+             'happened when the change was FIRST run against the checks as they were then):', '',
+             '| n-th change per property | caught at first run | tie/obligation broke, no failing input at first run | missed at first run |', '|---|---|---|---|']
+for n in sorted(rounds):
+    g = rounds[n]
+    seedrows.append('| %d | %d | %d | %d |' % (n, len(g.get('caught at first run', [])), len(g.get('tie/obligation broke, no failing input at first run', [])), len(g.get('missed at first run', []))))
 import subprocess
 hookrows = ['', '### 0.4 Hooks as built (guard `NEOLITH_VERIF`; every commit only adds guarded code; with the guard off the 188-test suite passes)', '',
             '| commit in /repo | what it adds |', '|---|---|']
